@@ -321,9 +321,47 @@ def r4(ctx):
     ctx.note("payload checks: %d sibling groups with an unread variant, %d named payload fields" % (na, nb))
 
 
+def r5(ctx):
+    """'without loss': a std::time::Duration that crosses the boundary is taken whole. The hand-written binding layer never looks at
+    a Duration through a truncating accessor (as_secs, as_millis, subsec_*): `d.as_secs() == 0` as the "zero means disabled" test
+    turns every sub-second setting off. The sentinel tests that exist compare the whole value with zero."""
+    ffi = ctx.ffi
+    trunc = r"time::Duration::(as_secs|as_millis|as_micros|as_nanos|subsec_\w+|as_secs_f32|as_secs_f64)$"
+    ctor = r"time::Duration::(from_secs|from_millis|from_micros|from_nanos)$"
+    n_ctor = 0
+    bad = 0
+    for bd in ffi.bodies.values():
+        if not hand_written(bd):
+            continue
+        for b in call_sites(bd, trunc):
+            bad += 1
+            ctx.bad("duration-truncated@%s" % short(bd.path), "%s reads a Duration through %s: part of the configured value is ignored" % (short(bd.path), short(b.term.callee or b.term.declared or "")), bd.where(b.idx))
+        n_ctor += len(call_sites(bd, ctor))
+    if n_ctor < 3:
+        raise AnchorError("positive control: Duration constructors found in the binding layer: %d" % n_ctor)
+    if not bad:
+        ctx.ok("duration:no-truncating-accessor", "no truncating Duration accessor in the hand-written binding layer (positive control: %d Duration constructors matched)" % n_ctor)
+    k = 0
+    for bd in ffi.bodies.values():
+        if not hand_written(bd):
+            continue
+        for g in ctx.gi(bd).all_guards():
+            if is_tracing(g.macros) or not any(mentions_call(e, r"::keep_alive_timeout$") for e in g.exprs()):
+                continue
+            if g.kind == "rel":
+                k += 1
+                other = g.b if mentions_call(g.a, r"::keep_alive_timeout$") else g.a
+                zero = (mentions_call(other, r"Duration::from_secs$|Duration::from_millis$") and mentions_const(other, 0)) or mentions_call(other, r"Default>::default$|::default$") or mentions_constdef(other, r"Duration::ZERO$")
+                whole = g.a[0] == "call" and (g.a[1] or "").endswith("keep_alive_timeout") or g.b[0] == "call" and (g.b[1] or "").endswith("keep_alive_timeout")
+                ctx.check(g.op in ("Eq", "Ne") and zero and whole, "keep-alive-sentinel@%s" % short(bd.path), "keep-alive 'disabled' sentinel: %r" % g, bd.where(g.edge[0]), bad_detail="the keep-alive sentinel test is `%r`: not a comparison of the whole Duration with zero" % g)
+    if k < 2:
+        raise AnchorError("keep-alive sentinel tests: %d" % k)
+
+
 RULES = [
     ("C20.R1", "T4-namesake", "every cross-boundary enum arm constructs the namesake variant; both directions compose to identity", r1),
     ("C20.R2", "T8-namesake", "struct fields and constructor arguments are filled from their own namesake", r2),
     ("C20.R3", "T8-forwarders", "database forwarders resolve to the namesake native operation with the same arguments", r3),
     ("C20.R4", "T8-payload", "variant payloads are carried across the boundary: no sibling-deviant drop, named fields reach their namesakes", r4),
+    ("C20.R5", "T5-zero/T2", "Durations cross the boundary whole: no truncating accessor; zero sentinels compare the whole value", r5),
 ]
